@@ -324,6 +324,33 @@ pub fn append(level: u8, f: &mut dyn FnMut(Case)) {
         body.push(G::Bip("append".into(), vec![v("$L"), atom("x"), v("$L"), v("$O")]));
         one_rule("append", vec![v("$O")], body, vec![v("$Z")], f);
     }
+    // the tail variable gets its list through an alias: aliased first and bound afterwards, bound
+    // first and aliased afterwards (both directions), bound through another list's tail, and bound
+    // by head unification when the list is passed to a rule through a variable
+    for tl in [list(vec![b(), atom("c")]), list(vec![]), list(vec![b()])] {
+        let ways: Vec<Vec<G>> = vec![
+            vec![G::Unify(v("$T"), v("$U")), G::Unify(v("$U"), tl.clone())],
+            vec![G::Unify(v("$U"), v("$T")), G::Unify(v("$U"), tl.clone())],
+            vec![G::Unify(v("$U"), tl.clone()), G::Unify(v("$T"), v("$U"))],
+            vec![G::Unify(v("$T"), v("$U")), G::Unify(v("$U"), v("$W")), G::Unify(v("$W"), tl.clone())],
+            vec![G::Unify(v("$T"), v("$U")), G::Unify(list_t(vec![atom("x")], v("$U")), list_t(vec![atom("x")], tl.clone()))],
+        ];
+        for pre in ways {
+            for ins in [vec![list_t(vec![a()], v("$T")), list(vec![atom("end")])], vec![list(vec![atom("s")]), list_t(vec![a()], v("$T"))], vec![v("$T"), list_t(vec![a()], v("$T"))]] {
+                let mut body = pre.clone();
+                let mut args = ins.clone();
+                args.push(v("$O"));
+                body.push(G::Bip("append".into(), args));
+                one_rule("append", vec![v("$O")], body, vec![v("$Z")], f);
+            }
+        }
+        let p: Program = vec![
+            rule("joined", vec![v("$H"), v("$T"), v("$Out")], G::Bip("append".into(), vec![list_t(vec![v("$H")], v("$T")), list(vec![atom("end")]), v("$Out")])),
+            rule("p", vec![v("$O")], G::And(vec![G::Unify(v("$L"), tl.clone()), call("joined", vec![a(), v("$L"), v("$O")])])),
+            rule("p2", vec![v("$O")], call("joined", vec![a(), tl.clone(), v("$O")])),
+        ];
+        f(Case { family: "append", prog: p, queries: vec![cplx("p", vec![v("$Z")]), cplx("p2", vec![v("$Z")]), cplx("joined", vec![b(), tl.clone(), v("$Z")])] });
+    }
     // Out given as a list: equal, different, pattern with tail
     let outs = vec![list(vec![a(), b()]), list(vec![a()]), list_t(vec![v("$H")], v("$R")), list(vec![]), a(), list(vec![a(), list(vec![])])];
     let d0 = list_values("0");
